@@ -29,13 +29,15 @@ SCOPE_STMTS = (ast.FunctionDef, ast.AsyncFunctionDef, ast.ClassDef)
 
 class Position:
     __slots__ = ("line", "col", "prefix", "dotted", "in_ignored", "blank", "from_import", "candidates", "logical",
-                 "name_position")
+                 "name_position", "receiver")
 
 
 class Oracle:
-    def __init__(self, src, o15):
-        """o15: harness.c15.observe(src) (rope's scopes are used only for C15's list of disagreements)"""
+    def __init__(self, src, o15, helpers=None):
+        """o15: harness.c15.observe(src) (rope's scopes are used only for C15's list of disagreements);
+        helpers: {module name: source} of the modules that exist in the project"""
         self.src = src
+        self.helpers = helpers or {}
         self.lines = src.split("\n")
         self.tree = o15.tr.tree
         self.facts = c15.Facts(self.tree)
@@ -51,6 +53,7 @@ class Oracle:
         self._ignored = self._ignored_spans()
         self._stmt_at = self._statements_by_line()
         self._cand_cache = {}
+        self.star_names = self._star_names()
         self.attributed_names = {}
         self.scope_causes = set()
         for d in self.dis:
@@ -60,6 +63,82 @@ class Oracle:
                 self.attributed_names.setdefault(d["name"], set()).add(d["cause"])
             elif d["what"].startswith("scope-"):
                 self.scope_causes.add(d["cause"])
+
+    # ---- other modules of the project
+    @staticmethod
+    def public_names(source):
+        """names a module binds at top level (what `from m import *` brings, without __all__)"""
+        out = []
+        for n in ast.parse(source).body:
+            if isinstance(n, SCOPE_STMTS):
+                out.append(n.name)
+            elif isinstance(n, ast.Assign):
+                for t in n.targets:
+                    out.extend(x.id for x in ast.walk(t) if isinstance(x, ast.Name))
+        return [x for x in out if not x.startswith("_")]
+
+    def _star_names(self):
+        names = set()
+        for n in self.tree.body:
+            if isinstance(n, ast.ImportFrom) and not n.level and n.module in self.helpers \
+                    and any(a.name == "*" for a in n.names):
+                names.update(self.public_names(self.helpers[n.module]))
+        return names
+
+    # ---- attributes of a statically known receiver
+    def static_attributes(self, name):
+        """attributes of the object a plain name denotes when that is statically evident: the name is bound
+        exactly once in the module, at top level, either by a class statement without bases (the class) or by
+        `name = Cls()` with Cls such a class (an instance).  Class body bindings + self.x of its methods.
+        None: not statically known."""
+        def only_binding(x):
+            sites = [n for n in ast.walk(self.tree)
+                     if (isinstance(n, ast.Name) and n.id == x and isinstance(n.ctx, (ast.Store, ast.Del)))
+                     or (isinstance(n, SCOPE_STMTS) and n.name == x)
+                     or (isinstance(n, ast.arg) and n.arg == x)
+                     or (isinstance(n, ast.alias) and (n.asname or n.name.split(".")[0]) == x)
+                     or (isinstance(n, ast.ExceptHandler) and n.name == x)
+                     or (isinstance(n, (ast.Global, ast.Nonlocal)) and x in n.names)]
+            return sites[0] if len(sites) == 1 else None
+
+        def class_attrs(cname):
+            c = only_binding(cname)
+            if not isinstance(c, ast.ClassDef) or c not in self.tree.body or c.bases or c.keywords \
+                    or c.decorator_list:
+                return None
+            p = self.py(c)
+            if p is None:
+                return None
+            return set(p.names) | self.facts.instance_attrs(c)
+
+        site = only_binding(name)
+        if isinstance(site, ast.ClassDef):
+            return class_attrs(name)
+        if isinstance(site, ast.Name):
+            for st in self.tree.body:
+                if isinstance(st, ast.Assign) and len(st.targets) == 1 and st.targets[0] is site \
+                        and isinstance(st.value, ast.Call) and isinstance(st.value.func, ast.Name) \
+                        and not st.value.args and not st.value.keywords:
+                    return class_attrs(st.value.func.id)
+        return None
+
+    def judge_dotted(self, pos, proposals):
+        """attribute completion after a statically known receiver: every attribute with the prefix is offered and
+        nothing else (dunder names of object aside).  Returns a list of problems, or None (receiver unknown)."""
+        if pos.receiver is None:
+            return None
+        attrs = self.static_attributes(pos.receiver)
+        if attrs is None:
+            return None
+        names = {n for (n, s) in proposals}
+        want = {a for a in attrs if a.startswith(pos.prefix)}
+        out = []
+        for x in sorted(want - names):
+            out.append(("attribute-missing", pos.receiver, x))
+        for x in sorted(names - want):
+            if not x.startswith("__"):
+                out.append(("not-an-attribute", pos.receiver, x))
+        return out
 
     # ---- text structure
     def _ignored_spans(self):
@@ -86,6 +165,16 @@ class Oracle:
                 pass
             self._tok_ends = ends
         return self._tok_ends
+
+    def _tokens_before(self, at, n):
+        """the last n significant tokens ending at or before offset `at`: [(end, type, string)]"""
+        out = []
+        for t in self._token_ends():
+            if t[0] <= at:
+                out.append(t)
+            else:
+                break
+        return out[-n:]
 
     def _name_can_follow(self, at):
         """the last significant token ending at or before offset `at` lets a name follow"""
@@ -233,7 +322,15 @@ class Oracle:
         before = self.lines[p.line - 1][:p.col]
         p.prefix = ID_RE.search(before).group()
         rest = before[:len(before) - len(p.prefix)].rstrip(" \t")
-        p.dotted = rest.endswith(".")
+        # something is dotted: a dot precedes the typed prefix, on this line or - inside brackets - on an earlier one
+        prev3 = self._tokens_before(o - len(p.prefix), 3)
+        tok_dot = bool(prev3) and prev3[-1][1] == _token.OP and prev3[-1][2] == "."
+        p.dotted = rest.endswith(".") or tok_dot
+        # the receiver when it is a plain name: `box . |`, `(box.\n   |`
+        p.receiver = None
+        if tok_dot and len(prev3) >= 2 and prev3[-2][1] == _token.NAME and not keyword.iskeyword(prev3[-2][2]) \
+                and not (len(prev3) >= 3 and prev3[-3][2] == "."):
+            p.receiver = prev3[-2][2]
         # can a NAME be typed here?  the significant token before the typed prefix must not be a closing bracket,
         # a literal or another word (keywords excepted: `return |`, `x in |`); looked up in the token stream so
         # that continuation lines inside brackets are seen through
@@ -276,12 +373,12 @@ class Oracle:
     def visible(self, scope, x):
         """does identifier x denote something when used in `scope` (PyScope)"""
         if x in scope.resolve:
-            return scope.resolve[x] is not None
-        return x in PY_BUILTINS
+            return scope.resolve[x] is not None or x in self.star_names
+        return x in PY_BUILTINS or x in self.star_names
 
     def visible_set(self, scope, prefix=""):
         out = {x for x in self.idents if x.startswith(prefix) and self.visible(scope, x)}
-        out |= {x for x in PY_BUILTINS if x.startswith(prefix) and x not in scope.resolve}
+        out |= {x for x in PY_BUILTINS | self.star_names if x.startswith(prefix) and x not in scope.resolve}
         return out
 
     def attributed(self, x, scope):
@@ -486,7 +583,7 @@ class Oracle:
             want = {l for (l, _k) in sites}
             kinds = {k for (_l, k) in sites}
         if not same_module:
-            ok = "import" in kinds
+            ok = "import" in kinds or (x in self.star_names and not want)
         elif got_line is None:
             # an import that does not resolve has no location; the table entry of an import wins over assignments
             ok = not want or "import" in kinds or kinds <= {"augassign", "del"}
